@@ -2,7 +2,7 @@
 """Regenerates /verif/MANIFEST.json from the table below (single source of truth)."""
 import json, subprocess
 
-HOOK_COMMITS = ["d85c6ee", "170bde9", "43ffa35", "8043914", "4c6f2d6", "8d2eb59", "c0750bc"]
+HOOK_COMMITS = ["d85c6ee", "170bde9", "43ffa35", "8043914", "4c6f2d6", "8d2eb59", "c0750bc", "07810ed"]
 
 # id -> (engine, category, technique, level text, level note, design ref)
 CHECKS = {
@@ -52,7 +52,7 @@ CHECKS = {
    "Release arithmetic (no overflow checks); replies faster than 500 ms count as in time.", "DESIGN.md section 6, C08"),
   "C09": ("E1-simnet-explorer", "model_checking",
    "deviation-bounded exhaustive exploration of adversarial injections and reply faults on a real node over a simulated network, differential oracle against the unperturbed run",
-   "A real node (real actor thread, socket layer and codec) runs a lookup and a put over scripted endpoints; at every network event an adversary may inject every (kind x guessable transaction id x wrong source) message, and every genuine reply may be duplicated, lost, delayed past its timeout or both; all single deviations (quick), pairs of injections over the sharpest kinds (thorough) and all pairs of reply fates with a silent node keeping the lookup open (at-most-once oracle) are enumerated and each execution's observable outcome (call results, routing tables, cached nodes, address votes, stored values) must equal the unperturbed one.",
+   "A real node (real actor thread, socket layer and codec) runs a lookup and a put over scripted endpoints; at every network event an adversary may inject every (kind x guessable transaction id x wrong source) message, and every genuine reply may be duplicated, lost, delayed past its timeout or both; all single deviations (quick), pairs of injections over the sharpest kinds (thorough) and all pairs of reply fates with a silent node keeping the lookup open (at-most-once oracle) are enumerated, as is every start position of the node's transaction-id counter around the 16-bit boundary and the 32-bit wrap-around (differential against the fresh node) and each execution's observable outcome (call results, routing tables, cached nodes, address votes, stored values) must equal the unperturbed one.",
    "One operation scenario (get then put, 3 endpoints); forged messages from the right address are outside the oracle.", "DESIGN.md section 6, C09"),
   "C12": ("E2-explicit-state", "model_checking",
    "explicit-state BFS over operation sequences whose state is the real RoutingTable plus the virtual clock; invariants on every state, transition relation on every step",
